@@ -17,6 +17,8 @@ kinds:  flip     if C: A else: B          ->  if not C: B else: A               
         demorgan   not (a and b) <-> not a or not b
         tmpexpr    f(a + 1), x[i - 1]     ->  _e = a + 1; f(_e)                          (call-free arithmetic operands)
         rangeoff   for i in range(a, b)   ->  for i_0 in range(b - a): i = i_0 + a
+        whiletrue  while C: B             ->  while True: if not C: break; B
+        tuplesplit / tuplemerge   a, b = X, Y  <->  a = X; b = Y
         k1+k2[+k3]  the kinds applied one after the other to the same function (only functions to which all of them apply)
 """
 import ast
@@ -301,6 +303,65 @@ class AndNest(_BlockRewriter):
         return out
 
 
+class WhileTrue(ast.NodeTransformer):
+    """while C: B  (no else, C not a constant)  ->  while True: if not C: break; B"""
+    n = 0
+
+    def visit_While(self, node):
+        self.generic_visit(node)
+        if not node.orelse and not isinstance(node.test, ast.Constant) and not any(isinstance(x, ast.NamedExpr) for x in ast.walk(node.test)):
+            self.n += 1
+            t = node.test
+            nt = t.operand if isinstance(t, ast.UnaryOp) and isinstance(t.op, ast.Not) else ast.UnaryOp(op=ast.Not(), operand=t)
+            brk = ast.If(test=nt, body=[ast.Break()], orelse=[])
+            return ast.copy_location(ast.While(test=ast.Constant(value=True), body=[brk] + node.body, orelse=[]), node)
+        return node
+
+
+class TupleSplit(_BlockRewriter):
+    """a, b = X, Y  ->  a = X; b = Y   (names only; no later value reads an earlier target)"""
+
+    def block(self, stmts, owner, field):
+        out = []
+        for s in stmts:
+            if isinstance(s, ast.Assign) and len(s.targets) == 1 and isinstance(s.targets[0], ast.Tuple) and isinstance(s.value, ast.Tuple) \
+                    and len(s.targets[0].elts) == len(s.value.elts) and all(isinstance(t, ast.Name) for t in s.targets[0].elts) \
+                    and not any(isinstance(x, (ast.Await, ast.Call, ast.Starred)) for x in ast.walk(s.value)):
+                tg, vs = s.targets[0].elts, s.value.elts
+                if all(not ({x.id for x in ast.walk(vs[k]) if isinstance(x, ast.Name)} & {t.id for t in tg[:k]}) for k in range(1, len(vs))):
+                    self.n += 1
+                    out.extend(ast.copy_location(ast.Assign(targets=[t], value=v), s) for t, v in zip(tg, vs))
+                    continue
+            out.append(s)
+        return out
+
+
+class TupleMerge(_BlockRewriter):
+    """a = X; b = Y  (consecutive, names, call-free, Y does not read a, X does not read b)  ->  a, b = X, Y"""
+
+    def block(self, stmts, owner, field):
+        out = []
+        i = 0
+        while i < len(stmts):
+            s = stmts[i]
+            nx = stmts[i + 1] if i + 1 < len(stmts) else None
+
+            def simple(z):
+                return isinstance(z, ast.Assign) and len(z.targets) == 1 and isinstance(z.targets[0], ast.Name) \
+                    and not any(isinstance(x, (ast.Await, ast.Call, ast.Lambda, ast.NamedExpr, ast.Yield)) for x in ast.walk(z.value))
+            if simple(s) and simple(nx) and s.targets[0].id != nx.targets[0].id \
+                    and s.targets[0].id not in {x.id for x in ast.walk(nx.value) if isinstance(x, ast.Name)} \
+                    and nx.targets[0].id not in {x.id for x in ast.walk(s.value) if isinstance(x, ast.Name)}:
+                self.n += 1
+                out.append(ast.copy_location(ast.Assign(targets=[ast.Tuple(elts=[s.targets[0], nx.targets[0]], ctx=ast.Store())],
+                                                        value=ast.Tuple(elts=[s.value, nx.value], ctx=ast.Load())), s))
+                i += 2
+                continue
+            out.append(s)
+            i += 1
+        return out
+
+
 class DeMorgan(ast.NodeTransformer):
     """not (a and b) -> not a or not b;  not (a or b) -> not a and not b;  and the converse for `not a or not b`"""
     n = 0
@@ -383,7 +444,7 @@ class RangeOffset(ast.NodeTransformer):
 
 KINDS = {'flip': Flip, 'orient': Orient, 'tmptest': TmpTest, 'ifexp': IfExpLift, 'unifexp': IfExpUnlift,
          'comp2loop': Comp2Loop, 'loop2comp': Loop2Comp, 'unelse': UnElse, 'addelse': AddElse, 'earlyexit': EarlyExit, 'nestand': NestAnd, 'andnest': AndNest,
-         'demorgan': DeMorgan, 'tmpexpr': TmpExpr, 'rangeoff': RangeOffset}
+         'demorgan': DeMorgan, 'tmpexpr': TmpExpr, 'rangeoff': RangeOffset, 'whiletrue': WhileTrue, 'tuplesplit': TupleSplit, 'tuplemerge': TupleMerge}
 NEEDS_FN = ('comp2loop', 'loop2comp')
 
 
